@@ -16,24 +16,13 @@ import Glom.Model.C11Env
 namespace Glom.Props.C11
 open Glom Glom.Mut Glom.C11
 
-/-- The hypotheses shared by the wildcard-free theorems: well-formed facts, every class has a
+/-- The hypotheses shared by the wildcard-free theorems, as one decidable test (`covered`,
+    Glom/Spec/C11.lean; the driver evaluates it per case): well-formed facts, every class has a
     registered `get`, item / attribute / plain-segment steps only, a modelled value kind, and —
-    only when a `missing` factory is given — `missingOK` (path arguments are immediate values).
-    All decidable; the driver evaluates them per case (`"covered"`). -/
-structure Hyps (env : MEnv) (h : Heap) (target : Val) (sroot : Bool) (orig : List Step)
-    (vs : ValSpec) (missing : Missing) : Prop where
-  wf : WF env = true
-  classes : classesOK env = true
-  steps : C01.wfSteps orig = true
-  val : valWf vs = true
-  valSup : valUnsupported h vs = false
-  missing : missingOK env orig missing = true
-
-theorem hyps_of_covered {env : MEnv} {h : Heap} {target : Val} {sroot : Bool} {orig : List Step}
-    {vs : ValSpec} {missing : Missing} (hc : covered env h target sroot orig vs missing = true) :
-    Hyps env h target sroot orig vs missing := by
-  simp only [covered, Bool.and_eq_true, Bool.not_eq_true'] at hc
-  exact ⟨hc.1.1.1.1.1, hc.1.1.1.1.2, hc.1.1.1.2, hc.1.1.2, hc.1.2, hc.2⟩
+    only when a `missing` factory is given — `missingOK` (path arguments are immediate values). -/
+abbrev Hyps (env : MEnv) (h : Heap) (target : Val) (sroot : Bool) (orig : List Step)
+    (vs : ValSpec) (missing : Missing) : Prop :=
+  covered env h target sroot orig vs missing = true
 
 /-- **Facts obligation** (re-checked on every run against the regenerated tables):
     `_assign_op` performs `dest[arg] = val` for `[`, `setattr(dest, arg, val)` for `.` — both
@@ -63,8 +52,9 @@ theorem c11_refines {env : MEnv} {h : Heap} {target : Val} {sroot : Bool} {orig 
     {vs : ValSpec} {missing : Missing} (hy : Hyps env h target sroot orig vs missing) (sref : Val) :
     Refines h target (assign env sroot sref missing h target orig vs)
       (refAssign env h target (if sroot then sref else target) orig vs missing) :=
-  assign_spec hy.wf hy.classes sroot sref missing h target orig vs hy.steps hy.val hy.valSup
-    hy.missing
+  by
+    obtain ⟨hwf, hc, hs, hv, hvu, hm⟩ := covered_parts hy
+    exact assign_spec hwf hc sroot sref missing h target orig vs hs hv hvu hm
 
 /-- **Equals plain Python**: a successful assign leaves exactly the heap of the corresponding
     nested item / attribute assignment (`refAssign … = .ok h' …`), and conversely the model
@@ -134,12 +124,12 @@ theorem c11_frame {env : MEnv} {h : Heap} {target : Val} {sroot : Bool} {orig : 
     obtain ⟨_, hheap, _, _⟩ := hr
     rw [hheap]
     have hpw : C01.wfSteps orig.dropLast = true :=
-      wfSteps_sub hy.steps (fun s hs => mem_of_mem_dropLast hs)
+      wfSteps_sub (covered_parts hy).2.2.1 (fun s hs => mem_of_mem_dropLast hs)
     have hpns : hasStar orig.dropLast = false := wfSteps_noStar hpw
     obtain ⟨op, arg, v, _, _, hcase⟩ := refAssign_ok_cases href
     rcases hcase with ⟨ds, hm, hseq, _⟩ | ⟨k, e, stop, kind, op', arg', h1, c, hid', w, _, hm, _, hbt, hr', rfl⟩
     · -- the parent exists
-      have hspec := fetch_spec hy.wf hy.classes h orig.dropLast (wfSteps_wfStar hpw) (.inl hpns) 0 root
+      have hspec := fetch_spec (covered_parts hy).1 (covered_parts hy).2.1 h orig.dropLast (wfSteps_wfStar hpw) (.inl hpns) 0 root
       rw [hm] at hspec
       obtain ⟨nest, _, hu, hlv⟩ := hspec
       rw [stars_zero hpns] at hu
@@ -192,7 +182,7 @@ theorem c11_missing {env : MEnv} {h : Heap} {target : Val} {sroot : Bool} {orig 
       injection hm with e1 _ _
       subst e1
       have hdrop : hasStar (orig.drop (k + 1)) = false :=
-        wfSteps_noStar (wfSteps_sub hy.steps (fun s hs => List.mem_of_mem_drop hs))
+        wfSteps_noStar (wfSteps_sub (covered_parts hy).2.2.1 (fun s hs => List.mem_of_mem_drop hs))
       obtain ⟨_, _, _, _, hn⟩ := buildTail_spec env kind' v _ _ _ _ _ _ hbt
       rw [hn hdrop]
       have hklt : k < orig.length := by
@@ -275,12 +265,10 @@ private def exPath : List Step := [("P", .str "a"), ("P", .str "1"), ("P", .str 
 private def exMissingPath : List Step := [("P", .str "n"), ("P", .str "m"), ("P", .str "z")]
 
 /-- every hypothesis of `Hyps` holds for a concrete three-segment assignment -/
-example : Hyps exEnv exHeap (.ref 0) false exPath (.lit (.int 5)) .none :=
-  ⟨by decide, by decide, by decide, by decide, by decide, by decide⟩
+example : Hyps exEnv exHeap (.ref 0) false exPath (.lit (.int 5)) .none := by decide
 /-- … and with a `missing` factory and a T-valued, shared value -/
 example : Hyps exEnv exHeap (.ref 0) false exMissingPath (.path [("[", .str "a"), ("[", .int 1)])
-    (.factory "dict") :=
-  ⟨by decide, by decide, by decide, by decide, by decide, by decide⟩
+    (.factory "dict") := by decide
 
 /-- success: `assign(t, 'a.1.b', 5)` sets the attribute of the object at address 2, nothing else -/
 example : (assign exEnv false .none .none exHeap (.ref 0) exPath (.lit (.int 5))).2 = .ok (.ref 0) ∧
@@ -313,8 +301,7 @@ private def sHeap : Heap := [.dict "dict" [], .dict "Scope" [(.str "d", .ref 0)]
 private def sPath : List Step := [("[", .str "d"), ("[", .str "n"), ("[", .str "z")]
 
 /-- the hypotheses are satisfiable for an S-rooted destination with a `missing` factory -/
-example : Hyps sEnv sHeap (.ref 0) true sPath (.lit (.int 5)) (.factory "dict") :=
-  ⟨by decide, by decide, by decide, by decide, by decide, by decide⟩
+example : Hyps sEnv sHeap (.ref 0) true sPath (.lit (.int 5)) (.factory "dict") := by decide
 /-- regression (repaired defect ca55bea):
     `glom(t, Assign(S['d']['n']['z'], 5, missing=dict), scope={'d': {}})` gives `d == {'n': {'z': 5}}` -/
 example :
